@@ -81,9 +81,19 @@ VRoomCases == UNION {{Case("vrooms", ValuedRooms(B5), bd[1], bd[2],
                            LET rs == RoomsOf(bd[1], bd[2], r, rr, rc) IN <<rs, ValsFor(Len(rs), j)>>) :
                         r \in ConnParts(bd[1], bd[2]), rr \in BOOLEAN, rc \in BOOLEAN, j \in 0 .. 1} : bd \in RoomBoards \ {<<3, 3>>}}
 
+(* room combinators that do not start at offset 0 of the text *)
+NestedVR == Tupl(<<DecInt, FixStr("/"), ValuedRooms(B5)>>)
+NestedR  == Tupl(<<SeqT(B1, 2), Rooms>>)
+NestedCases1 == UNION {{Case("nested", NestedVR, bd[1], bd[2],
+                             LET rs == RoomsOf(bd[1], bd[2], r, rr, FALSE) IN <<<<a>>, <<>>, <<<<rs, ValsFor(Len(rs), j)>>>>>>) :
+                          r \in ConnParts(bd[1], bd[2]), rr \in BOOLEAN, j \in 0 .. 1, a \in {0, 12}} : bd \in {<<2, 2>>, <<1, 3>>, <<2, 3>>}}
+NestedCases2 == UNION {{Case("nested", NestedR, bd[1], bd[2], <<<<s>>, <<RoomsOf(bd[1], bd[2], r, FALSE, rc)>>>>) :
+                          r \in ConnParts(bd[1], bd[2]), rc \in BOOLEAN, s \in [1 .. 2 -> {-1, 16}]} : bd \in {<<2, 2>>, <<3, 1>>}}
+
 (* one sequence per family: the values of different families have different shapes *)
 All == TLCEval(SetToSeq({x \in SeqCases : ValidSeq(x)}) \o SetToSeq(RunCases) \o SetToSeq(GridCases) \o SetToSeq(TuplCases1)
-               \o SetToSeq(TuplCases2) \o SetToSeq(TuplCases3) \o SetToSeq(TuplCases4) \o SetToSeq(RoomCases) \o SetToSeq(VRoomCases))
+               \o SetToSeq(TuplCases2) \o SetToSeq(TuplCases3) \o SetToSeq(TuplCases4) \o SetToSeq(RoomCases) \o SetToSeq(VRoomCases)
+               \o SetToSeq(NestedCases1) \o SetToSeq(NestedCases2))
 
 VARIABLES shard, i
 Init == shard \in 0 .. 63 /\ i = 0
